@@ -30,6 +30,8 @@ def plan(tier, seed):
     for i in range(2 if tier == "quick" else 8):
         sh.append({"kind": "bic", "part": i, "parts": 2 if tier == "quick" else 8, "tier": tier, "_name": f"bic-{i}"})
     sh.append({"kind": "contracts", "tier": tier, "_name": "contracts"})
+    for i in range(2):
+        sh.append({"kind": "fold", "part": i, "parts": 2, "tier": tier, "_name": f"fold-{i}"})
     return sh
 
 
@@ -100,6 +102,12 @@ def run_iban(shard, mon, S):
                 b = gen.edit_fuzz(b, rng, 1)
                 b = "".join(c for c in b if not c.isspace())
             kw = {"validate_bban": True} if i % 4 == 0 else {}
+            if i == 0:
+                # texts that start with a printed label: all spellings of such a text are judged alike too
+                for lab in gen.labelled(b)[:8]:
+                    for var in gen.decorate(lab, rng):
+                        same_outcome(mon, S.IBAN, lab, var, {}, "iban_labelled")
+                        same_outcome(mon, S.IBAN, lab, var, {"allow_invalid": True}, "iban_labelled_unvalidated")
             for var in gen.decorate(b, rng):
                 ob, ov = same_outcome(mon, S.IBAN, b, var, kw, "iban")
             if ob.ok:
@@ -141,6 +149,65 @@ def run_iban(shard, mon, S):
         mon.sample({"base": bases[0], "variant": esc(gen.decorate(bases[0], rng)[5])})
 
 
+def fold_chars():
+    import unicodedata  # noqa: PLC0415
+
+    out = []
+    for cp in list(range(0xA0, 0x3400)) + list(range(0xA640, 0xA800)) + list(range(0xFB00, 0xFFF0)) + list(range(0x1D400, 0x1D800)) + list(range(0x1F100, 0x1F200)):
+        c = chr(cp)
+        n = unicodedata.normalize("NFKC", c)
+        if n != c and n and all(x in R.ALNUM + R.ALNUM.lower() + " " for x in n):
+            out.append(c)
+    return out
+
+
+def run_fold(shard, mon, S):
+    """A character that some normalisation would fold into a letter, a digit or a blank, put where that letter
+    / digit / blank would make the text valid: whatever is accepted must have a clean compact form and re-parse
+    to an equal object; unvalidated objects must be stable under re-parsing of their own compact form."""
+    import unicodedata  # noqa: PLC0415
+
+    table = data.countries()
+    rng = env.rng("C10", "fold")
+    chars = fold_chars()[shard["part"] :: shard["parts"]]
+    gb = R.make_iban("GB", "NWBK" + "".join(rng.choice(R.DIGITS) for _ in range(14)))
+    de = R.make_iban("DE", gen.random_bban(table["DE"], rng))
+    for c in chars:
+        n = unicodedata.normalize("NFKC", c).upper()
+        cands = []
+        if len(n) == 1 and n in R.UPPER:
+            b = R.make_iban("GB", n + "WBK" + gb[8:])
+            cands += [("iban", b[:4] + c + b[5:]), ("bic", c + "ENODEM1GLS"), ("bic", "GENODEM1GL" + c)]
+        elif len(n) == 1 and n in R.DIGITS:
+            b = R.make_iban("DE", de[4:-1] + n)
+            cands += [("iban", b[:-1] + c), ("bic", "GENODEM" + c + "GLS")]
+        else:
+            cands += [("iban", de[:8] + c + de[8:]), ("bic", "GENO" + c + "DEM1GLS")]
+        for kind_, t in cands:
+            ctor = S.IBAN if kind_ == "iban" else S.BIC
+            o = observe(ctor, t)
+            ou = observe(ctor, t, allow_invalid=True)
+            mon.ev()
+            mon.distinct(("fold", kind_, t))
+            w = {"text": esc(t), "character": esc(c), "nfkc": n, "class": kind_}
+            if o.ok:
+                s = str(o.value)
+                if any(ch.isspace() for ch in s) or any("a" <= ch <= "z" for ch in s):
+                    mon.viol(f"{kind_}:compact_form_not_clean:folded_character", w, "no whitespace / lower case", esc(s))
+                r1, r2 = observe(ctor, s), observe(ctor, o.value.formatted)
+                if not r1.ok or not r2.ok or r1.value != o.value or r2.value != o.value or str(r1.value) != s:
+                    mon.viol(f"{kind_}:reparse_not_equal:folded_character", w, esc(s), [r1.brief(), r2.brief()])
+            if ou.ok:
+                s = str(ou.value)
+                r3 = observe(ctor, s, allow_invalid=True)
+                if not r3.ok or str(r3.value) != s or r3.value != ou.value:
+                    mon.viol(f"{kind_}:unvalidated_compact_form_not_stable:folded_character", w, esc(s), r3.brief())
+                if o.ok != observe(ctor, s).ok:
+                    mon.viol(f"{kind_}:text_and_its_own_compact_form_judged_differently", w, o.brief(), esc(s))
+    mon.tally("fold_characters", len(chars))
+    mon.sample({"folded_character_example": esc(chars[0]) if chars else None})
+
+
 def run_bic(shard, mon, S):
     rng = env.rng("C10", "bic", shard["part"])
     for i in range(SIZES[shard["tier"]]["bics"] // shard["parts"]):
@@ -165,7 +232,7 @@ def run_shard(shard, out_base):
         return suite.run_contract_shard("C10", out_base)
     mon = Mon("C10")
     S = judge.lib()
-    (run_iban if shard["kind"] == "iban" else run_bic)(shard, mon, S)
+    {"iban": run_iban, "bic": run_bic, "fold": run_fold}[shard["kind"]](shard, mon, S)
     return mon.result(out_base)
 
 
